@@ -591,10 +591,11 @@ namespace
             if (r.chance(1, 40)) nops *= 8; // a long history: what only accumulates over hundreds or thousands of operations
             for (int i = 0; i < nops; i++)
             {
-                int k = (int)r.below(7);
+                int k = (int)r.below(8);
                 int64_t iv = r.range(1, 50);
                 switch (k)
                 {
+                case 7: p.ops.push_back({7, (int64_t)r.below(nt), (int64_t)r.below(2), iv}); break;
                 case 0: p.ops.push_back({0, r.chance(1, 8) ? r.range(50, 2000) : r.range(0, 20)}); break;
                 case 1: p.ops.push_back({1, (int64_t)r.below(nt), r.range(-20, 100), iv}); break;
                 case 2: p.ops.push_back({2, (int64_t)r.below(nt), r.range(-20, 100), iv}); break;
@@ -628,10 +629,44 @@ namespace
             };
             for (auto &o : p.ops)
             {
-                int kind = (int)mod(arg(o, 0), 7);
+                int kind = (int)mod(arg(o, 0), 8);
                 int ti = (int)mod(arg(o, 1), n);
                 switch (kind)
                 {
+                case 7:
+                {
+                    // a periodic block that does more than run to its end: it gives its own timer a new period, or it leaves the
+                    // caller's polling loop with break. The period is advanced when the block is entered.
+                    bool due = m[ti].due(now);
+                    if (mod(arg(o, 2), 2) == 0)
+                    {
+                        int64_t iv2 = mod(arg(o, 3) - 1, 1000) + 1;
+                        bool ran = false;
+                        STIMER_PERIODIC(&st[ti], now)
+                        {
+                            ran = true;
+                            stimer_plan(&st[ti], now, iv2);
+                        }
+                        if (ran != due) violate("C16/stimer_periodic", "stimer %d periodic ran=%d model due=%d", ti, (int)ran, (int)due);
+                        if (due) { m[ti].start = now; m[ti].interval = iv2; m[ti].planned = true; probe("periodic_block_replanned_its_timer"); }
+                    }
+                    else
+                    {
+                        int fired = 0;
+                        for (int poll = 0; poll < 5; poll++)
+                        {
+                            STIMER_PERIODIC(&st[ti], now)
+                            {
+                                fired++;
+                                break; // (leaves the polling loop: the macro is a plain if on this tree's contract)
+                            }
+                        }
+                        if (fired != (due ? 1 : 0)) violate("C16/stimer_periodic", "a polling loop left with break from the periodic block of stimer %d ran the block %d times, model due=%d", ti, fired, (int)due);
+                        if (due) { m[ti].start += m[ti].interval; probe("periodic_block_left_with_break"); }
+                    }
+                    check(ti, "periodic-block");
+                    break;
+                }
                 case 0:
                     now += mod(arg(o, 1), 2001);
                     t.ev("now=%ld", now);
